@@ -666,6 +666,21 @@ Proof.
   - vm_compute. reflexivity.
 Qed.
 
+(* producer-before-consumer: no Data field outside the committed lists is written after
+   an event of the same (possibly nested) list has purely read it *)
+Lemma writers_precede_readers_all :
+  (war_unexplained war_step1 (step1_events pv_euler),
+   war_unexplained war_step1 (step1_events pv_implicit),
+   war_unexplained war_step2 (step2_events pv_euler),
+   war_unexplained war_step2 (step2_events pv_implicit),
+   war_unexplained war_forward (forward_events pv_common)) = (nil, nil, nil, nil, nil).
+Proof. vm_compute. reflexivity. Qed.
+
+Lemma M_complete_before_factor :
+  mem "d.M" (war (step1_events pv_euler)) = false /\
+  mem "d.M" (war (step1_events pv_implicit)) = false.
+Proof. split; vm_compute; reflexivity. Qed.
+
 (* ---- C12 ------------------------------------------------------------------------------------- *)
 Definition step_wellformed (pv : pval) : bool :=
   evs_ok (step_events pv) && no_cond_mentions ["sleep"; "SLEEP"; "callback"] (step_events pv) &&
